@@ -36,6 +36,22 @@ Proof. exact preproc_undefined_named. Qed.
 Theorem c20_text_without_tilde_untouched : forall pv s, ~ In x_tilde s -> preproc pv s = PpOk s.
 Proof. exact preproc_untouched_without_tilde. Qed.
 
+(** Substitution is ONE pass, so it terminates and its result is bounded
+    whatever the values mention — themselves and cycles included. *)
+Theorem c20_preproc_single_pass_bounded : forall pv s,
+  match preproc pv s with
+  | PpOk out => Expand pv s out [] /\ (length out <= length s * S (max_val_len pv))%nat
+  | PpUndefined names => names <> []
+  | PpPanic => False
+  end.
+Proof. exact preproc_single_pass_bounded. Qed.
+
+(** parameter who defaults to dear ~who~ ; a -> ~b~, b -> ~a~ *)
+Example c20_ex_self_reference_is_literal :
+  preproc [([x77; x68; x6f], [x64; x65; x61; x72; x20; x7e; x77; x68; x6f; x7e])] [x68; x65; x6c; x6c; x6f; x20; x7e; x77; x68; x6f; x7e] = PpOk [x68; x65; x6c; x6c; x6f; x20; x64; x65; x61; x72; x20; x7e; x77; x68; x6f; x7e] /\
+  preproc [([x61], [x7e; x62; x7e]); ([x62], [x7e; x61; x7e])] [x7e; x61; x7e] = PpOk [x7e; x62; x7e].
+Proof. split; vm_compute; reflexivity. Qed.
+
 (** -D wins over `parameter ... defaults to`; the first definition wins among
     equals; a `parameter` clause defines only what is not defined yet. *)
 Theorem c20_define_precedence : forall defs params n,
